@@ -130,14 +130,28 @@ func session1(seed int64, i int) (ivs []interval, frames []rig.Frame, logged boo
 	if variant == "stalled-writer" && buf > 1 {
 		buf = 1
 	}
-	f, err := rig.StartFull(rig.FullCfg{Role: role, HeartBtInt: 1, BufSize: buf, Notify: false, Label: fmt.Sprintf("c20-%d", i), CloseTimeout: 200 * time.Millisecond, WriteTimeout: 10 * time.Second})
+	// every second accepting scenario: a second client is connected to the same acceptor, and both sessions are
+	// made from ONE session.Opts object (as in the library's examples); the second client logs on, exchanges
+	// traffic, logs out and on again while the first one does what its variant says
+	twoClients := role == rig.Acceptor && (i/4)%2 == 0
+	fcfg := rig.FullCfg{Role: role, HeartBtInt: 1, BufSize: buf, Notify: false, Label: fmt.Sprintf("c20-%d", i), CloseTimeout: 200 * time.Millisecond, WriteTimeout: 10 * time.Second}
+	if twoClients {
+		fcfg.SharedOpts = rig.Opts()
+		desc += " second-client-sharing-the-session-options"
+	}
+	f, err := rig.StartFull(fcfg)
 	if err != nil {
 		return
 	}
-	var l *rig.Link
+	var l, l2 *rig.Link
 	if role == rig.Acceptor {
 		if l, err = f.Connect(fmt.Sprintf("c20-%d", i)); err != nil {
 			return
+		}
+		if twoClients {
+			if l2, err = f.Connect(fmt.Sprintf("c20-%d-second", i)); err != nil {
+				return
+			}
 		}
 	} else {
 		l = f.Links[0]
@@ -224,6 +238,48 @@ func session1(seed int64, i int) (ivs []interval, frames []rig.Frame, logged boo
 			}
 		}
 	}()
+	if l2 != nil {
+		wg.Add(2)
+		go func() {
+			defer wg.Done()
+			p := l2.Peer
+			r2 := rand.New(rand.NewSource(seed*104729 + int64(i)))
+			at(50 * time.Millisecond)
+			l2.Conn.Feed(p.Logon(1, "0"))
+			at(350 * time.Millisecond)
+			l2.Conn.Feed(p.TestRequest("second"))
+			l2.Conn.Feed(rig.BadChecksum(p.Heartbeat()))
+			// the same instants as the first client's Logout / Logon in the relogon variants
+			at(900*time.Millisecond + sweep)
+			t0 := time.Now()
+			l2.Conn.Feed(p.Logout())
+			time.Sleep(time.Duration(r2.Intn(3000)) * time.Microsecond)
+			l2.Conn.Feed(p.Logon(1, "0"))
+			rec("second-client-logout-logon", t0, time.Now().Add(30*time.Millisecond))
+			for k := 0; k < 8; k++ {
+				at(time.Duration(1300+k*450)*time.Millisecond + sweep/4)
+				switch k % 4 {
+				case 0:
+					l2.Conn.Feed(p.Heartbeat())
+				case 1:
+					l2.Conn.Feed(p.Resend(1, 0))
+				case 2:
+					l2.Conn.Feed(p.Logout())
+					l2.Conn.Feed(p.Logon(1, "0"))
+				default:
+					l2.Conn.Feed(p.TestRequest(fmt.Sprint(k)))
+				}
+			}
+		}()
+		go func() {
+			defer wg.Done()
+			at(200 * time.Millisecond)
+			for k := 0; k < 40; k++ {
+				_ = l2.S.Send(fixgen.CreateMarketDataRequestReject(fmt.Sprintf("second-%d", k)))
+				time.Sleep(100 * time.Millisecond)
+			}
+		}()
+	}
 	// senders
 	for g := 0; g < nSenders; g++ {
 		wg.Add(1)
